@@ -347,6 +347,60 @@ theorem mem_adoptUnrecordedTasks (s : Sys) (jo : JobObj) (tasks : List Task) (t 
     · exact Or.inr ⟨p, ⟨hp, ⟨⟨h1, fun t0 ht0 => by simpa using h2 t0 ht0⟩,
         fun r hr => by simpa using h2' r hr⟩, h3⟩, hpt⟩
 
+theorem podTask_name {p : PodObj} {t : Task} (h : podTask p = some t) : t.name = p.pod.name := by
+  unfold podTask Pod.task at h
+  split at h
+  · cases h
+  · simp only [Option.some.injEq] at h; rw [← h]
+
+theorem liveGetTask_name {s : Sys} {n : String} {t : Task} (h : liveGetTask s n = some t) : t.name = n := by
+  unfold liveGetTask at h
+  split at h
+  · rename_i p hp
+    rw [podTask_name h, (findPod_some hp).2]
+  · cases h
+
+/-- a task found for a ref (cache, else live GET) carries the ref's name -/
+theorem getTaskForRefConfirmed_name {s : Sys} {ref : TaskRef} {t : Task}
+    (h : getTaskForRefConfirmed s ref = some t) : t.name = ref.name := by
+  have key : getTaskForRef s ref = some t → t.name = ref.name := by
+    intro h
+    unfold getTaskForRef at h
+    split at h
+    · rename_i p hp
+      split at h
+      · cases h
+      · rename_i t' ht'
+        split at h
+        · cases h; rw [podTask_name ht', (findPod_some hp).2]
+        · exact liveGetTask_name h
+    · split at h
+      · cases h
+      · exact liveGetTask_name h
+  unfold getTaskForRefConfirmed at h
+  split at h
+  · rename_i t' ht'
+    cases h; exact key ht'
+  · exact liveGetTask_name h
+
+theorem tasksForRefsConfirmed_name {s : Sys} {refs : List TaskRef} {t : Task}
+    (h : t ∈ tasksForRefsConfirmed s refs) : ∃ r ∈ refs, t.name = r.name := by
+  unfold tasksForRefsConfirmed at h
+  obtain ⟨r, hr, hg⟩ := List.mem_filterMap.mp h
+  exact ⟨r, hr, getTaskForRefConfirmed_name hg⟩
+
+/-- membership in `finalizerTasks`: a task of the status that could still be found (cache, else
+live GET), or the task of a pod of the pod cache that is labelled with and controlled by the Job
+and is neither found nor recorded -/
+theorem mem_finalizerTasks (s : Sys) (jo : JobObj) (rj : Job) (t : Task) :
+    t ∈ finalizerTasks s jo rj ↔
+      t ∈ tasksForRefsConfirmed s rj.status.tasks ∨
+      ∃ p ∈ s.podCache, podTask p = some t ∧ p.jobLabel = some jo.uid ∧ p.ownerUid = some jo.uid ∧
+        (∀ t' ∈ tasksForRefsConfirmed s rj.status.tasks, t'.name ≠ p.pod.name) ∧
+        (∀ r ∈ rj.status.tasks, r.name ≠ p.pod.name) := by
+  unfold finalizerTasks
+  exact mem_adoptUnrecordedTasks s _ _ t
+
 -- ---------------------------------------------------------------- syncCreateTasks
 
 /-- `b` has the spec / metadata of `a`, except that the admission-error annotation may have been
